@@ -85,9 +85,17 @@ class Ctx:
                            getattr(node, 'lineno', 0) if node is not None and not isinstance(node, str) else 0))
         return None
 
-    def check(self, cond, rule, where, node, ok_detail, bad_detail=None):
+    def check(self, cond, rule, where, node, ok_detail, bad_detail=None, absent=None, value=None):
+        """Two-valued obligation: for conditions whose FALSE branch is as trustworthy as the true one (comparisons of fully typed / closed-form results, table
+        agreement). With absent=False the caller says that a false condition only means "the form I know was not found": undecided instead of violated.
+        Structural rules use tri()."""
         if cond:
             return self.holds(rule, where, ok_detail, node)
+        if absent is False:
+            return self.undecided(rule, where, 'not located: %s (%s)' % (ok_detail, bad_detail or ''))
+        if value is not None and _has_unknown(value):
+            # the compared abstract value is only partly typed (an axis or the element is unknown): the comparison failed for lack of information, not by a conflict
+            return self.undecided(rule, where, 'not fully typed: %s (%s)' % (ok_detail, bad_detail or ''))
         return self.violated(rule, where, node, bad_detail or ('NOT: ' + ok_detail))
 
     def tri(self, good, bad, rule, where, node, ok_detail, bad_detail, und_detail=None):
@@ -101,6 +109,26 @@ class Ctx:
 
     def note(self, s):
         self.notes.append(s)
+
+
+def _has_unknown(v, depth=0):
+    """An abstract value of the shape engine with an unknown axis / element (duck-typed: no import of the engine here)."""
+    if depth > 4 or v is None:
+        return v is None
+    name = type(v).__name__
+    if name == 'Unknown':
+        return True
+    if name == 'Arr':
+        return any(type(a).__name__ == 'Unknown' or a is None for a in v.axes) or _has_unknown(v.elem, depth + 1)
+    if name == 'Q':
+        return bool(getattr(v, 'poly', False))
+    if name == 'Ix':
+        return type(v.space).__name__ == 'Unknown'
+    if name == 'Rec':
+        return any(_has_unknown(x, depth + 1) for x in v.fields.values())
+    if name in ('NoneT',):
+        return True
+    return False
 
 
 def load_known():
